@@ -200,8 +200,21 @@ class Ctx:
         self._last_nf = (pa, pb)
         return pa == pb, show_poly(pa), show_poly(pb)
 
-    def compare(self, rule, instance, N, code_v, ref_v, site="", config=""):
-        """obligation: code value == reference value modulo the ring axioms"""
+    def compare(self, rule, instance, N, code_v, ref_v, site="", config="", alternatives=()):
+        """obligation: code value == reference value modulo the ring axioms.  `alternatives` are other
+        spellings of the same reference algorithm (each equivalent to the first by construction, e.g. a
+        loop nest written row-wise): agreement with any of them discharges the obligation; a report
+        is made against the primary reference"""
+        if alternatives and code_v is not None and not (isinstance(code_v, V) and code_v.kind == "undef"):
+            for k_, alt in enumerate(alternatives):
+                if alt is None:
+                    continue
+                try:
+                    eq_, _, sb_ = self.same(N, code_v, alt)
+                except Exception:
+                    continue
+                if eq_:
+                    return self.ob(rule, instance, True, f"code ≡ reference (equivalent spelling #{k_ + 1}): {sb_[:300]}", site, config)
         if code_v is None or ref_v is None or (isinstance(code_v, V) and code_v.kind == "undef"):
             return self.ob(rule, instance, False, f"value missing on the {'code' if code_v is None or (isinstance(code_v, V) and code_v.kind == 'undef') else 'reference'} side", site, config)
         eq, sa, sb = self.same(N, code_v, ref_v)
